@@ -179,6 +179,7 @@ def opShapes (op : String) (args : List String) : String :=
     | "m.polycontains", _ => match vs.getLast? with
       | some p => "ok " ++ showB (polyContains (vs.dropLast.map affH) (affH p))
       | none => "bad-op"
+    | "m.polyfan2", _ => "ok " ++ showRat (polyFan2 (vs.map affH))
     | "m.segcontains", [a, b, p] => "ok " ++ showB (segContains (affH a) (affH b) (Spec.cross (affH a) (affH b)) (affH p))
     | "m.tricontains", [a, b, c, p] => "ok " ++ showB (triContains (affH a) (affH b) (affH c) (affH p))
     | "m.segintersect", [a, b, c, d] => match segIntersect (affH a) (affH b) (affH c) (affH d) with
@@ -301,7 +302,7 @@ def dispatch (op : String) (args : List String) : String :=
   | "spec.cr", [a, b, c, d] => match parseQ a, parseQ b, parseQ c, parseQ d with
     | some a, some b, some c, some d => "ok " ++ showQ (Spec.crParam a b c d)
     | _, _, _, _ => "bad-op"
-  | "m.polycontains", _ | "m.segcontains", _ | "m.tricontains", _ | "m.segintersect", _
+  | "m.polyfan2", _ | "m.polycontains", _ | "m.segcontains", _ | "m.tricontains", _ | "m.segintersect", _
   | "spec.onsegment", _ | "spec.onray", _ | "spec.intriangle", _ | "spec.inpolygon", _ | "spec.shoelace2", _
   | "spec.vecarea2", _ | "spec.centroidnum", _ => opShapes op args
   | "spec.quadform", [a, p] => match parseTens a, parseVec p with
